@@ -19,6 +19,7 @@
       `d` to the leaf paths inserted so far with null pads in list slots not yet reached);
     * rebuild_perm_exact : without empty lists / containers below the root, `rebuild σ = d`.
 -/
+import YtkModel.Generated.Constants
 import YtkProofs.Addr
 import YtkProofs.PointerPaths
 import YtkProofs.RebuildB
@@ -132,5 +133,11 @@ theorem nonvacuous_rebuild_exact :
   have hs : (Node.cont exFull).SafeKeys := Node.safeB_sound _ (by decide +kernel)
   have hn : ∀ p ∈ exFull, p.2.NoEmpty := noEmptyKvsB_sound _ (by decide +kernel)
   exact ⟨hv, hs, hn, rebuild_perm_exact exFull hv hs hn _ (List.reverse_perm _)⟩
+
+/-- Tie to the source text (regenerated on every run): the two index-group patterns the model's
+    hand-written scanners (`stripIdx`, `parseSeg`) were written for are the ones in the source. -/
+theorem source_constants :
+    Generated.const? "dom.listPathRe" = some "\\[\\d+]$" ∧
+    Generated.const? "utils.listPropRe" = some ".*(\\[\\d+])+" := by decide
 
 end Ytk.C02
